@@ -83,8 +83,14 @@ func (e *Engine) rangeModel(st *State, fn *ssa.Function, args []Val, site ssa.In
 	savedVisited, hadVisited := st.ghost["visited"]
 	visT := &GhostT{Kind: "set", Key: keyT}
 	st.ghost["visited"] = term(e.zero(visT), visT)
+	savedKey, hadKey := st.ghost["rangeKey"]
+	savedVal, hadVal := st.ghost["rangeVal"]
 	if hadVisited {
 		st.ghost["visitedOuter"] = savedVisited
+	}
+	if hadKey {
+		// the entry of the enclosing iteration whose callback we are in
+		st.ghost["rangeKeyOuter"] = savedKey
 	}
 	restore := func(s *State) {
 		if hadVisited {
@@ -92,6 +98,17 @@ func (e *Engine) rangeModel(st *State, fn *ssa.Function, args []Val, site ssa.In
 			delete(s.ghost, "visitedOuter")
 		} else {
 			delete(s.ghost, "visited")
+		}
+		if hadKey {
+			s.ghost["rangeKey"] = savedKey
+			delete(s.ghost, "rangeKeyOuter")
+		} else {
+			delete(s.ghost, "rangeKey")
+		}
+		if hadVal {
+			s.ghost["rangeVal"] = savedVal
+		} else {
+			delete(s.ghost, "rangeVal")
 		}
 	}
 	// entry
@@ -121,12 +138,33 @@ func (e *Engine) rangeModel(st *State, fn *ssa.Function, args []Val, site ssa.In
 			e.addObl(st, pre+".entry.frame."+h, "frame", "frame condition holds before the iteration", f)
 		}
 	}
+	// captured variables the callback never assigns keep their value (the havoc below is per heap map)
+	type kept struct {
+		p   Val
+		old Val
+	}
+	var keeps []kept
+	for i, b := range cl.Binds {
+		if b.K == kTerm && i < len(cbFn.FreeVars) && !storesFreeVar(cbFn, i, 0) {
+			if pt, ok := b.Typ.Underlying().(*types.Pointer); ok {
+				if _, isStruct := pt.Elem().Underlying().(*types.Struct); !isStruct {
+					keeps = append(keeps, kept{b, e.loadThrough(st, b)})
+				}
+			}
+		}
+	}
 	for _, h := range hs {
 		e.heapHavoc(st, h)
 	}
 	for _, h := range hs {
 		if f := e.frameFormula(st, h); f != "" {
 			st.assume(f)
+		}
+	}
+	for _, kp := range keeps {
+		if kp.old.K == kTerm {
+			nv := e.loadThrough(st, kp.p)
+			st.assume(fmt.Sprintf("(= %s %s)", nv.T, kp.old.T))
 		}
 	}
 	// captured local cells (if any are plain cells)
@@ -176,15 +214,46 @@ func (e *Engine) rangeModel(st *State, fn *ssa.Function, args []Val, site ssa.In
 		key := e.freshOf(s, "range_key", keyT)
 		s.assume(fmt.Sprintf("(and (select %s %s) (not (select %s %s)))", keysNow(s), key.T, s.ghost["visited"].T, key.T))
 		s.ghost["visited"] = term(fmt.Sprintf("(store %s %s true)", s.ghost["visited"].T, key.T), visT)
+		s.ghost["rangeKey"] = key // the entry being visited (callbacks may ignore their key parameter)
 		cbArgs := []Val{key}
 		if hasVal {
 			vm := fmt.Sprintf("(select (select %s %s) %s)", e.heapGet(s, valH, valS), e.absRef(recv), key.T)
 			cbArgs = append(cbArgs, e.loaded(s, term(vm, valT.(*GhostT).Elem)))
 		}
 		s.trace = append(s.trace, "range-step:"+anchor)
+		if hasVal {
+			s.ghost["rangeVal"] = cbArgs[1]
+		}
+		// hints about the entry being visited: `at step <anchor>: assert|assume label: e` (proved, then known)
+		if c != nil {
+			for _, at := range c.Ats {
+				if (at.Kind == "assert" || at.Kind == "assume") && at.Anchor == "step "+prefix+anchor {
+					e.usedAts[at] = true
+					g := e.evalBool(s, mkEnv(s), at.C.E)
+					if at.Kind == "assert" {
+						e.addObl(s, pre+".step."+at.C.Label, "assert", at.C.Src, g)
+					} else {
+						e.noteAssumption("assumed at " + at.Anchor + ": " + at.C.Src)
+					}
+					s.assume(g)
+				}
+			}
+		}
+		preStep := s.snapshot()
 		e.callFunc(s, cbFn, cl.Binds, cbArgs, site, func(s2 *State, rs []Val) {
 			if s2.dead {
 				return
+			}
+			// ghost bookkeeping per visited entry: `at step <anchor>: ghost x := e` (old() = state before the callback)
+			if c != nil {
+				for _, at := range c.Ats {
+					if at.Kind == "ghost" && at.Anchor == "step "+prefix+anchor {
+						env := e.envFor(s2, evalFr, preStep)
+						env.extraFr = s2.top()
+						e.usedAts[at] = true
+						e.ghostAssign(s2, env, at.Var, at.C.E)
+					}
+				}
 			}
 			cont := s2.clone()
 			// callback returned true: the iteration goes on, the invariant must hold again
@@ -299,15 +368,7 @@ func (e *Engine) collectionModel(st *State, fn *ssa.Function, args []Val, site s
 		if len(args) != 1 {
 			return false
 		}
-		ks := e.sortOf(keyT)
-		card := "set_card_" + mangle(ks)
-		if !e.S.has(card) {
-			e.S.DeclareFun(card, []string{fmt.Sprintf("(Array %s Bool)", ks)}, e.S.IntSort())
-			zero := e.intLit(0, tInt)
-			e.S.AddAxiom([]string{card}, fmt.Sprintf("(forall ((s!c (Array %s Bool))) (! %s :pattern ((%s s!c))))", ks, e.compare(">=", "("+card+" s!c)", zero, tInt), card))
-			e.S.AddAxiom([]string{card}, fmt.Sprintf("(forall ((s!c (Array %s Bool)) (x!c %s)) (! (=> (select s!c x!c) %s) :pattern ((%s s!c) (select s!c x!c))))", ks, ks, e.compare(">", "("+card+" s!c)", zero, tInt), card))
-			e.S.AddAxiom([]string{card}, fmt.Sprintf("(forall ((s!c (Array %s Bool))) (! (=> (= (%s s!c) %s) (= s!c ((as const (Array %s Bool)) false))) :pattern ((%s s!c))))", ks, card, zero, ks, card))
-		}
+		card := e.declCard(e.sortOf(keyT))
 		k(st, []Val{term(fmt.Sprintf("(%s %s)", card, keys()), tInt)})
 	case "LoadOrStoreLazy":
 		if !hasVal || len(args) != 3 {
@@ -349,4 +410,52 @@ func (e *Engine) collectionModel(st *State, fn *ssa.Function, args []Val, site s
 		return false
 	}
 	return true
+}
+
+// declCard declares the cardinality function of sets over a key sort with the three facts the
+// proofs need: non-negative; an element implies positive; zero implies empty.
+func (e *Engine) declCard(ks string) string {
+	card := "set_card_" + mangle(ks)
+	if !e.S.has(card) {
+		e.S.DeclareFun(card, []string{fmt.Sprintf("(Array %s Bool)", ks)}, e.S.IntSort())
+		zero := e.intLit(0, tInt)
+		e.S.AddAxiom([]string{card}, fmt.Sprintf("(forall ((s!c (Array %s Bool))) (! %s :pattern ((%s s!c))))", ks, e.compare(">=", "("+card+" s!c)", zero, tInt), card))
+		e.S.AddAxiom([]string{card}, fmt.Sprintf("(forall ((s!c (Array %s Bool)) (x!c %s)) (! (=> (select s!c x!c) %s) :pattern ((%s s!c) (select s!c x!c))))", ks, ks, e.compare(">", "("+card+" s!c)", zero, tInt), card))
+		e.S.AddAxiom([]string{card}, fmt.Sprintf("(forall ((s!c (Array %s Bool))) (! (=> (= (%s s!c) %s) (= s!c ((as const (Array %s Bool)) false))) :pattern ((%s s!c))))", ks, card, zero, ks, card))
+	}
+	return card
+}
+
+// storesFreeVar: may the closure (or a closure it creates) assign free variable i?
+func storesFreeVar(fn *ssa.Function, i int, depth int) bool {
+	if depth > 6 || i >= len(fn.FreeVars) {
+		return true
+	}
+	fv := fn.FreeVars[i]
+	for _, b := range fn.Blocks {
+		for _, in := range b.Instrs {
+			switch x := in.(type) {
+			case *ssa.Store:
+				if x.Addr == fv {
+					return true
+				}
+			case *ssa.MakeClosure:
+				for j, bnd := range x.Bindings {
+					if bnd == fv {
+						if storesFreeVar(x.Fn.(*ssa.Function), j, depth+1) {
+							return true
+						}
+					}
+				}
+			case ssa.CallInstruction:
+				// the address escapes into a call: assume it may be written
+				for _, a := range x.Common().Args {
+					if a == fv {
+						return true
+					}
+				}
+			}
+		}
+	}
+	return false
 }
